@@ -55,6 +55,10 @@ def run : Handler := fun req => do
     | some v => if v == b then none else some s!"{sOf b "kind"} {sOf b "name"} differs"
     | none => some s!"{sOf b "kind"} {sOf b "name"} missing") ++
     (vSk.filterMap fun v => if bSk.any (fun b => sOf v "name" == sOf b "name" && sOf v "kind" == sOf b "kind") then none else some s!"{sOf v "kind"} {sOf v "name"} added")
+  -- (2b) constants (header names, regexes) that exist under the base setting keep their type and value
+  let consts (items : List Json) : List (String × String × String) := (items.filter fun it => sOf it "kind" == "const" || sOf it "kind" == "static").map fun it => (sOf it "name", sOf it "ty", sOf it "expr")
+  let cV := consts vItems
+  let constDiff : List String := (consts bItems).filterMap fun c => if cV.contains c then none else some s!"const {c.1}: {c.2.2} is no longer defined with this value"
   -- (3) items added/removed other than documented ones
   let key (it : Json) : String := s!"{sOf it "kind"} {sOf it "name"} {(fieldD it "trait" Json.null).compress}"
   let keysB := bItems.map key
@@ -77,6 +81,7 @@ def run : Handler := fun req => do
   let judge :=
     if (fieldD var "parse_error" Json.null) != Json.null then verdict false [] "variant output does not parse"
     else if !skDiff.isEmpty then verdict false [] s!"type definitions differ between the settings: {skDiff.take 4}"
+    else if !constDiff.isEmpty then verdict false [] s!"constants change between the settings: {constDiff.take 3}"
     else if !added.isEmpty || !removed.isEmpty then verdict false [] s!"items added {added.take 3} / removed {removed.take 3} beyond the documented ones"
     else if !mBad.isEmpty then verdict false [] s!"inherent methods differ although helper/builder flags are equal: {mBad.take 4}"
     else if !visBad.isEmpty then verdict false (if headerOnly then ["KnownHeaderConstPub"] else []) s!"items not carrying the requested visibility `{wantVis}`: {visBad.take 4}"
